@@ -125,7 +125,8 @@ rows9="""| C01-s9 | `EvalSymlinks` giving up at the 255th link: C01 had no chain
 | C12-s9 | a handle keeping a *copy* of the FailFS it was opened through: the function was always installed before the history | C12 (e): the function exchanged under an open handle (read-only, a plan, let-through) |
 | C14-s9 | a directory handle replaying its old snapshot when read again after io.EOF: what a handle does after io.EOF was never looked at (C14 itself is about fresh enumerations and stays silent) | C02: after the first io.EOF an entry is removed and one created; later batches never deliver a name that is gone, nor one twice |
 @ROWS9B@"""
-rep("""\nC06-s3 deleted a re-validation""","\n"+rows9.replace("@ROWS9B@\n","").replace("@ROWS9B@","")+"\nC06-s3 deleted a re-validation") if False else None
+rows9=rows9.replace("@ROWS9B@",'| C07-s9 | `IsEmpty` ignoring the error of its second Stat (nil FileInfo dereferenced): faults were "every call of F fails", never "the second one" | C07 (a6): the helpers of the top-level package with the k-th primitive of the call failing |\n| C09-s9 | `RoFile` wrappers recycled through a pool, so that a closed handle comes back to life as somebody else\'s: nothing asked a closed handle anything after another open | C09: closed-handle tail after every history |\n| C11-s9 | creations in the root of a view skipping the re-validation "was my directory removed meanwhile": C11 is sequential, and the workers of C06 all had views of `/` | C06/C07: worker 0 acts through `Sub("/w/d")` while the parent removes, moves or replaces `/w/d` |\n| C16-s9 | a "same file" short cut comparing Type(), Name() and the path string: source and destination never had the same path | C16: one case in four mirrors the path on two distinct instances of one kind |')
+rep("""|\n\nC06-s3 deleted a re-validation""","|\n"+rows9+"\n\nC06-s3 deleted a re-validation")
 
 open(p,'w').write(s)
 print('ok')
